@@ -6,7 +6,7 @@
 From Coq Require Import List Arith NArith Bool String.
 From Verif Require Import Lib.Sched Kv.KeyOrd Kv.AList Kv.Spec Kv.Mem Kv.Sql Kv.Skel Kv.Refine
   Kv.Facts Kv.SeqFacts Kv.KvGen Kv.KvCorr Kv.Atomic Kv.AtomicSql Kv.AtomicCor Kv.AtomicCorr
-  Kv.AtomicGen Gen.KvSql Gen.KvMemSkel.
+  Kv.AtomicPg Kv.AtomicGen Gen.KvSql Gen.KvMemSkel.
 Import ListNotations.
 
 Notation mreachable := (Sched.reachable table loc result).
@@ -210,6 +210,84 @@ Theorem C06_sql_append_all_once : forall bprog db0 cfg k,
 Proof. exact gen_sql_append_all_once. Qed.
 Print Assumptions C06_sql_append_all_once.
 
+(** ** Blocking and refusal: what the forced schedules of the harness show
+
+    sync.RWMutex: while a writer (any memKV method but get / has / walks) is
+    inside its critical section - e.g. a Mutate inside the user's function -
+    every step of the system is a step of that writer: the other goroutines'
+    Lock / RLock is not enabled, they block.  While a reader (a walk inside
+    its callback) is inside, no writer can enter. *)
+Theorem C06_lock_exclusion :
+  forall (S L R : Type) (prog : tid -> list (Sched.call S L R)) (s0 : S) (cfg : config S L R),
+  (forall j c, In c (prog j) -> call_mode S L R c <> MU) ->
+  reachable S L R (init S L R prog s0) cfg ->
+  forall i,
+    (holds S L R MW (ths S L R cfg i) ->
+     forall j, j <> i -> ~ holds S L R MW (ths S L R cfg j) /\ ~ holds S L R MR (ths S L R cfg j)) /\
+    (holds S L R MR (ths S L R cfg i) -> forall j, ~ holds S L R MW (ths S L R cfg j)).
+Proof. exact lock_exclusion. Qed.
+Print Assumptions C06_lock_exclusion.
+
+Theorem C06_mem_writer_runs_alone : forall bprog m0 cfg cfg' i,
+  mreachable (minit (mem_prog bprog) m0) cfg ->
+  mholds MW (mths cfg i) -> Sched.step table loc result cfg cfg' ->
+  forall j, j <> i -> mths cfg' j = mths cfg j.
+Proof.
+  exact (fun bprog m0 cfg cfg' i =>
+           writer_runs_alone table loc result (mem_prog bprog) m0 cfg cfg' i (mem_prog_locked bprog)).
+Qed.
+Print Assumptions C06_mem_writer_runs_alone.
+
+Theorem C06_mem_reader_blocks_writers : forall bprog m0 cfg cfg' i,
+  mreachable (minit (mem_prog bprog) m0) cfg ->
+  mholds MR (mths cfg i) -> Sched.step table loc result cfg cfg' ->
+  forall j, ~ mholds MW (mths cfg' j).
+Proof.
+  exact (fun bprog m0 cfg cfg' i =>
+           reader_blocks_writers table loc result (mem_prog bprog) m0 cfg cfg' i (mem_prog_locked bprog)).
+Qed.
+Print Assumptions C06_mem_reader_blocks_writers.
+
+(** sqlite: while a connection is inside a mutate transaction the committed
+    database changes only by that transaction's own commit - a write another
+    connection attempts in the meantime can only be refused; and at most one
+    connection holds a pending write. *)
+Theorem C06_sql_tx_excludes_writes : forall cfg cfg' j,
+  qstep gen_sqlite_methods cfg cfg' -> in_tx (qths cfg j) ->
+  qdb cfg' = qdb cfg \/
+  (exists k f img todo, qths cfg j = QWritten k f img todo /\ qdb cfg' = img).
+Proof. exact gen_sql_tx_excludes_writes. Qed.
+Print Assumptions C06_sql_tx_excludes_writes.
+
+Theorem C06_sql_reserved_unique : forall bprog db0 cfg,
+  qreachable gen_sqlite_methods (qinit bprog db0) cfg -> reserved_unique cfg.
+Proof. exact gen_sql_reserved_unique. Qed.
+Print Assumptions C06_sql_reserved_unique.
+
+(** ** PostgreSQL (cannot run here; a model of its documented READ COMMITTED
+    rules, see Kv/AtomicPg.v).  The source has the shape that loses updates
+    (open finding); with SELECT ... FOR UPDATE every schedule of mutates would
+    be serializable. *)
+Theorem C06_psql_mutate_shape :
+  gen_psql_mutate_begin = "b.db.Begin()"%string /\
+  gen_psql_mutate_select = "select v from %s where k=$1"%string /\
+  gen_psql_mutate_select_locks_row = false.
+Proof. exact gen_psql_mutate_shape. Qed.
+Print Assumptions C06_psql_mutate_shape.
+
+Theorem C06_psql_for_update_serializable : forall prog db0 cfg,
+  preachable true (pinit prog db0) cfg ->
+  run mem_step db0 (pops (pdone cfg)) = (pdb cfg, presults (pdone cfg)).
+Proof. exact pg_for_update_serializable. Qed.
+Print Assumptions C06_psql_for_update_serializable.
+
+(** the property as it would read for psqlKV.mutate as written: NOT proved,
+    and refuted in the model by [C06_psql_read_committed_lost_update] *)
+Definition stmt_psql_mutate_serializable : Prop :=
+  forall prog db0 cfg,
+    preachable gen_psql_mutate_select_locks_row (pinit prog db0) cfg ->
+    run mem_step db0 (pops (pdone cfg)) = (pdb cfg, presults (pdone cfg)).
+
 (** ** The history checker used on recorded runs is sound *)
 Theorem C06_lin_sound : forall fuel pending s final,
   lin fuel pending s final = true ->
@@ -350,3 +428,21 @@ Example C06_nonvacuous_checker :
   accepts_history [UAdd ex_key [48%N]]
     [mkH 1 2 (UGet ex_key) (RBytes [49%N]); mkH 3 4 incr RUnit] [(ex_key, Some [49%N])] = false.
 Proof. vm_compute. repeat split. Qed.
+
+(** READ COMMITTED, SELECT without row lock: both transactions read "0", the
+    first writes "1" and commits, the second writes its own "1" and commits.
+    Two successful increments, counter 1 - and the statement above is false. *)
+Example C06_psql_read_committed_lost_update :
+  exists cfg,
+    preachable false (pinit pg_prog pg_db0) cfg /\
+    presults (pdone cfg) = [RUnit; RUnit] /\
+    pdb cfg = [(pg_key, ([], [49%N]))] /\
+    fst (run mem_step pg_db0 (pops (pdone cfg))) = [(pg_key, ([], [50%N]))].
+Proof. exact pg_rc_lost_update. Qed.
+
+Example C06_stmt_psql_mutate_serializable_refuted : ~ stmt_psql_mutate_serializable.
+Proof.
+  intros H. destruct pg_rc_lost_update as (cfg & Hr & _ & Hdb & Hseq).
+  specialize (H pg_prog pg_db0 cfg Hr). rewrite H in Hseq. cbn [fst] in Hseq.
+  rewrite Hdb in Hseq. discriminate.
+Qed.
